@@ -248,14 +248,15 @@ BODY_POOL = [
     ("empty", b""), ("lf-only", b"a\nb\n"), ("blank-lines", b"a\r\n\r\nb\r\n"), ("non-ascii", "# café\r\nkeep;\r\n".encode()),
     ("looks-like-OK", b"OK\r\nkeep;\r\n"), ("looks-like-NO", b"# x\r\nNO way\r\n"), ("looks-like-BYE", b"BYE\r\n"),
     ("first-line-sizelike", b"{1}\r\nx\r\n"), ("inner-sizelike", b"x\r\n{3}\r\ny\r\n"), ("quotes", b'"quoted"\r\n'),
-    ("active-word", b"ACTIVE\r\n"), ("trailing-blank", b"keep;\r\n\r\n\r\n"), ("cr-only", b"a\rb\r"),
+    ("active-word", b"ACTIVE\r\n"), ("unicode-line-separators", "a\u2028b\u2029c\x0cd\x0be\x1cf\x85g\r\nz\r\n".encode("utf-8")), ("trailing-blank", b"keep;\r\n\r\n\r\n"), ("cr-only", b"a\rb\r"),
 ]
 NAME_POOL = ["main", "vacàtion", "with space", 'quo"te', "back\\slash", "{3}", "ACTIVE", "OK", "a ACTIVE", "x" * 3, "{5+}"]
 
 
 def norm_lines(b):
-    t = b.decode("utf-8")
-    lines = t.splitlines()
+    """lines of a stored script: split at CRLF / LF / CR only (line endings of the protocol), nothing else"""
+    import re as _re
+    lines = [x.decode("utf-8") for x in _re.split(rb"\r\n|\n|\r", b)]
     while lines and lines[-1] == "":
         lines.pop()
     return lines
@@ -294,7 +295,7 @@ def bounded_getscript(pid, tier, seed):
 
 
 def _lines(s):
-    lines = s.splitlines()
+    lines = s.split("\n")
     while lines and lines[-1] == "":
         lines.pop()
     return lines
